@@ -110,6 +110,8 @@ impl<const LIMBS: usize> Uint<LIMBS> {
                 .overflowing_shr_vartime(shift - Self::BITS)
                 .expect("shift within range");
             ConstCtOption::some((lower, Self::ZERO))
+        } else if shift == 0 {
+            ConstCtOption::some((lower, upper))
         } else {
             let new_upper = upper
                 .overflowing_shr_vartime(shift)
